@@ -3,6 +3,7 @@
   (`Generated/TempSeqSrc.lean`, written by tools/extract.d/c08_seq.py from the live source).
 -/
 import UnytModel.TempSeq
+import UnytModel.TempReduce
 import UnytModel.Generated.TempSeqSrc
 
 namespace Unyt.C08
@@ -14,6 +15,8 @@ def seqSourceMatches : Bool :=
   Generated.coerceTest == srcCoerceTest.map Name.ofString
   && Generated.coerceLoopBody == srcCoerceLoopBody.map Name.ofString
   && Generated.coerceResults == srcCoerceResults.map Name.ofString
+  -- the start value of a reduction is converted with `.to_value(u)` and nothing else (`tempReduceInitial`)
+  && Generated.initialBlock == srcInitialBlock.map fun (a, b) => (Name.ofString a, b.map Name.ofString)
 
 /-- `_coerce_iterable_units` converts every element with `datum.in_units(ff.units)` under the test
     `any(ff != …units…)` and labels the array with `ff` — the code `coerceIterable` models -/
